@@ -222,3 +222,132 @@ Proof. exact ExecSane.x_oracle_ok. Qed.
 
 Print Assumptions gas_bounds_discharge_c01_exec_sane.
 Print Assumptions exec_sane_example.
+
+(* C07 <-> C10 (Compose/EvmOracle.v, EVM/ProofsRefund.v).  The premise oracle_ok of 1, 2, 4, 5 above — the only thing this
+   property assumes about the EVM — is a THEOREM for the clause oracle induced by C10's interpreter model (EVM/Model.v) driven the
+   way runtime.PrepareClause drives the EVM: a fresh statedb per clause (accounts / storage view, no logs, no transfer records,
+   refund counter 0), evm.Call = call_top for a clause with a To, evm.Create = do_create at depth 0 with creation counter 0 for
+   a clause without, fuel gas+1; gas left = r_gas, refund counter = w_refund of the final world, VM error = outcome other than
+   O_ok (REVERT, every error, and the out-of-model outcome O_unsupported).  How the EVM environment and the accounts / storage
+   view are read off this model's env / txn / clause index / state, the clause's input bytes, how the final world is written
+   back, the ledger primitives and the output are arbitrary functions (data, not premises).  0 <= left <= gas comes from C10's
+   run_terminates_within_gas / do_create_gas; refund >= 0 from the new EVM/ProofsRefund.v (the refund counter never
+   decreases along a run: only gasSStore / gasSuicide add to it, a failed frame returns its entry world). *)
+From Verif Require EVM.Model Compose.EvmOracle.
+
+Section C07_C10.
+  Variables W O : Type.
+  Variable evm_env : env -> txn -> nat -> state W -> Verif.EVM.Model.env.
+  Variable world_of : state W -> Verif.EVM.Model.world.
+  Variable input_of : txn -> nat -> list Z.
+  Variable world_back : state W -> Verif.EVM.Model.world -> W.
+  Variable ops_of : Verif.EVM.Model.fres -> list op.
+  Variable out_of : Verif.EVM.Model.fres -> O.
+  Variable write_credit : Z -> Z -> Z -> W -> W.
+  Let evm_oracle := EvmOracle.evm_clause_result W O evm_env world_of input_of world_back ops_of out_of.
+
+  Theorem oracle_ok_of_c10_interpreter : oracle_ok W O evm_oracle.
+  Proof. exact (EvmOracle.evm_oracle_ok W O evm_env world_of input_of world_back ops_of out_of). Qed.
+
+  (* 1 without its premise *)
+  Theorem gas_bounds_c10 e t ci st0 st rc :
+    exec_tx W O evm_oracle write_credit e t ci st0 = Done W O st rc ->
+    exists ig, intrinsic_gas (t_clauses t) = Some ig /\
+      ig <= r_gas_used O rc <= t_gas t /\ t_gas t <= e_gas_limit e /\
+      r_paid O rc = r_gas_used O rc * r_price O rc /\
+      log_ok (r_clause_log O rc) /\
+      r_gas_used O rc = ig + log_used (r_clause_log O rc) - log_refund (r_clause_log O rc) /\
+      2 * log_refund (r_clause_log O rc) <= log_used (r_clause_log O rc).
+  Proof. exact (EvmOracle.gas_bounds_evm W O evm_env world_of input_of world_back ops_of out_of write_credit e t ci st0 st rc). Qed.
+
+  (* 2 without its premise *)
+  Theorem tx_atomic_c10 e t ci st0 st rc :
+    exec_tx W O evm_oracle write_credit e t ci st0 = Done W O st rc -> r_reverted O rc = true ->
+    let T := e_time e in let S := e_stop e in
+    let prepaid := t_gas t * r_price O rc in
+    let returned := (t_gas t - r_gas_used O rc) * r_price O rc in
+    r_outputs O rc = [] /\
+    snd (energy_sub T S (fst st0) (r_payer O rc) prepaid) = true /\
+    fst st = energy_add T S (energy_add T S (fst (energy_sub T S (fst st0) (r_payer O rc) prepaid))
+                                        (r_payer O rc) returned) (e_benef e) (r_reward O rc) /\
+    (snd st = snd st0 \/
+     exists to credit', r_credit O rc = Some credit' /\ common_to (t_clauses t) = Some to /\
+                        snd st = write_credit to (t_origin t) credit' (snd st0)).
+  Proof. exact (EvmOracle.tx_atomic_evm W O evm_env world_of input_of world_back ops_of out_of write_credit e t ci st0 st rc). Qed.
+
+  (* 4 and 5 (block gas) without their premise *)
+  Theorem block_gas_c10 e txs st used st' rcs :
+    0 <= e_gas_limit e -> 2 * e_gas_limit e < two64 ->
+    Forall (fun p => 0 <= t_gas (fst p) < two64 /\
+                     Forall (fun c => 0 <= c_zeros c /\ 0 <= c_nonzeros c) (t_clauses (fst p))) txs ->
+    adopt_all W O evm_oracle write_credit e 0 txs st [] = (used, st', rcs) ->
+    used = sum_used O rcs /\ 0 <= used <= e_gas_limit e.
+  Proof. exact (EvmOracle.block_gas_evm W O evm_env world_of input_of world_back ops_of out_of write_credit e txs st used st' rcs). Qed.
+
+  Theorem block_gas_full_c10 e fe txs st fs' st' rcs :
+    0 <= e_gas_limit e -> 2 * e_gas_limit e < two64 ->
+    Forall (fun p => 0 <= t_gas (fst (fst p)) < two64 /\
+                     Forall (fun c => 0 <= c_zeros c /\ 0 <= c_nonzeros c) (t_clauses (fst (fst p)))) txs ->
+    adopt_all_full W O evm_oracle write_credit e fe (mkFS 0 []) txs st [] = (fs', st', rcs) ->
+    fs_used fs' = sum_used O rcs /\ 0 <= fs_used fs' <= e_gas_limit e.
+  Proof. exact (EvmOracle.block_gas_full_evm W O evm_env world_of input_of world_back ops_of out_of write_credit e fe txs st fs' st' rcs). Qed.
+
+  (* a clause the wrapper counts as failed returned the fresh EVM view untouched (C10: failed_frame_no_effect /
+     failed_creation_no_effect) with refund counter 0 *)
+  Theorem failed_clause_world_c10 e t i g st :
+    cr_err W O (evm_oracle e t i g st) = true ->
+    exists r, EvmOracle.evm_frame W evm_env world_of input_of e t i g st = Some r /\
+              Verif.EVM.Model.r_out r <> Verif.EVM.Model.O_ok /\
+              Verif.EVM.Model.r_world r = EvmOracle.fresh (world_of st) /\
+              cr_refund W O (evm_oracle e t i g st) = 0 /\
+              cr_world W O (evm_oracle e t i g st) = world_back st (EvmOracle.fresh (world_of st)).
+  Proof. exact (EvmOracle.evm_clause_failed_world W O evm_env world_of input_of world_back ops_of out_of e t i g st). Qed.
+
+  (* ... and C01's premise about execution (the composition with C01 above) holds outright: C01 <- C07 <- C10 *)
+  Theorem exec_sane_c10 (tx_rest : Validation.Body.txn -> txn) (env_rest : Header.Rules.bctx -> state W -> env)
+          (credit_of : Header.Rules.bctx -> state W -> Validation.Body.txn -> credit_info) (digest : receipt O -> N) :
+    Validation.ProofsPacker.exec_sane (state W)
+      (ExecSane.exec_of_c07 W O evm_oracle write_credit tx_rest env_rest credit_of digest).
+  Proof. exact (EvmOracle.exec_sane_evm W O evm_env world_of input_of world_back ops_of out_of write_credit tx_rest env_rest credit_of digest). Qed.
+End C07_C10.
+
+(* non-vacuity (instances in Compose/EvmOracle.v): the EVM's balances are read from the ledger, its transfer records go back as
+   ledger transfers; a transaction of two clauses — a call into a contract that clears a storage slot (refund counter 15000,
+   capped to half of the 5005 gas consumed) carrying 3 wei, and a creation deploying one byte of code — runs through exec_tx on
+   the interpreter: Done, gas used 72194 = intrinsic 69476 + 5220 - 2502; with a third clause calling a contract that hits
+   INVALID the transaction is reverted (hypotheses of tx_atomic_c10 / failed_clause_world_c10); a block of both (block_gas_c10) *)
+Example c10_oracle_runs : exists st rc,
+  exec_tx EvmOracle.XW EvmOracle.XO EvmOracle.x_oracle EvmOracle.x_wc EvmOracle.x_env EvmOracle.x_tx EvmOracle.x_ci
+          (EvmOracle.x_led, EvmOracle.x_w0) = Done EvmOracle.XW EvmOracle.XO st rc /\
+  r_reverted EvmOracle.XO rc = false /\ r_gas_used EvmOracle.XO rc = 72194 /\
+  r_clause_log EvmOracle.XO rc = [(130524, 5005, 2502); (128021, 215, 0)].
+Proof. destruct EvmOracle.x_runs as (st & rc & E & R & G & _ & L & _). exists st, rc. repeat split; assumption. Qed.
+
+Example c10_oracle_reverts : exists st rc,
+  exec_tx EvmOracle.XW EvmOracle.XO EvmOracle.x_oracle EvmOracle.x_wc EvmOracle.x_env EvmOracle.x_tx_bad EvmOracle.x_ci
+          (EvmOracle.x_led, EvmOracle.x_w0) = Done EvmOracle.XW EvmOracle.XO st rc /\
+  r_reverted EvmOracle.XO rc = true /\ r_outputs EvmOracle.XO rc = [] /\ snd st = EvmOracle.x_w0.
+Proof. destruct EvmOracle.x_reverts as (st & rc & E & R & Ho & Hs & _). exists st, rc. repeat split; assumption. Qed.
+
+Example c10_failed_clause :
+  cr_err EvmOracle.XW EvmOracle.XO
+         (EvmOracle.x_oracle EvmOracle.x_env EvmOracle.x_tx_bad 2%nat 1000 (EvmOracle.x_led, EvmOracle.x_w0)) = true.
+Proof. exact (proj1 EvmOracle.x_failed_world). Qed.
+
+Example c10_block : exists st rcs,
+  adopt_all EvmOracle.XW EvmOracle.XO EvmOracle.x_oracle EvmOracle.x_wc EvmOracle.x_env 0
+            [(EvmOracle.x_tx, EvmOracle.x_ci); (EvmOracle.x_tx_bad, EvmOracle.x_ci)] (EvmOracle.x_led, EvmOracle.x_w0) []
+  = (272194, st, rcs) /\ map (r_gas_used EvmOracle.XO) rcs = [72194; 200000].
+Proof. destruct EvmOracle.x_block as (st & rcs & E & M & _). exists st, rcs. split; assumption. Qed.
+
+Print Assumptions oracle_ok_of_c10_interpreter.
+Print Assumptions gas_bounds_c10.
+Print Assumptions tx_atomic_c10.
+Print Assumptions block_gas_c10.
+Print Assumptions block_gas_full_c10.
+Print Assumptions failed_clause_world_c10.
+Print Assumptions exec_sane_c10.
+Print Assumptions c10_oracle_runs.
+Print Assumptions c10_oracle_reverts.
+Print Assumptions c10_failed_clause.
+Print Assumptions c10_block.
